@@ -1,17 +1,17 @@
 SPECIFICATION Spec
 CONSTANTS
-  K = 4
+  K = 3
   SizeLimit = 3
   PeerLimit = 2
-  RingCap = 2
-  CacheCap = 1
-  Universe <- UC
+  RingCap = 1
+  CacheCap = 0
+  Universe <- UD
   H0 = 1
   Peers = {1}
   Fine = FALSE
-  UseRing = TRUE
+  UseRing = FALSE
   MaxWritten = 99
 VIEW View
 INVARIANT Inv
-PROPERTY StepProp
+PROPERTY ReachSizeErr
 CHECK_DEADLOCK FALSE
